@@ -52,6 +52,9 @@ def ring_hist(rng, nops):
         n = rng.randrange(0, 6)
         sc.append("rnew %d" % n); nr += max(n, 0)
     sc.append("rzero"); nr += 1
+    if rng.random() < 0.5:
+        # the first call on a never-touched zero ring (lazy init inside the method), incl. Link(nil) and Unlink(0)
+        sc.append(rng.choice(["rlink %d -1", "rlink %d %d", "runlink %d 0", "rmove %d 0", "rlen %d", "rdo %d", "rnext %d"]).replace("%d", str(nr - 1)))
     for _ in range(nops):
         r = rng.random()
         a, b = rng.randrange(nr), rng.randrange(nr)
@@ -59,7 +62,7 @@ def ring_hist(rng, nops):
         if r < 0.12: sc.append("rnext %d" % a)
         elif r < 0.22: sc.append("rprev %d" % a)
         elif r < 0.37: sc.append("rmove %d %d" % (a, cnt))
-        elif r < 0.57: sc.append("rlink %d %d" % (a, b))
+        elif r < 0.57: sc.append("rlink %d %d" % (a, b if rng.random() < 0.9 else -1))
         elif r < 0.70: sc.append("runlink %d %d" % (a, cnt))
         elif r < 0.80: sc.append("rlen %d" % a)
         elif r < 0.88: sc.append("rdo %d" % a)
